@@ -12,7 +12,7 @@ const ORIGINS: [&str; 19] = ["http://site.test", "https://site.test", "http://si
 const PATHS: [&str; 5] = ["/page", "/api/x", "/api/deep/y", "/", "/index.html"];
 
 /// rule spec: (pattern, allow_all, origins, methods or None=all, headers, max age secs)
-type RuleSpec = (String, bool, Vec<String>, Option<Vec<String>>, Vec<String>, u64);
+type RuleSpec = (String, bool, Vec<String>, Option<Vec<String>>, Vec<String>, String);
 
 fn gen_rules(rng: &mut Rng) -> Vec<RuleSpec> {
     // exact paths, wildcards over directories, and wildcards that extend an exact path by one character (`/page*`)
@@ -28,7 +28,7 @@ fn gen_rules(rng: &mut Rng) -> Vec<RuleSpec> {
                 Some(m)
             };
             let headers = (0..rng.below(3)).map(|i| ["x-a", "content-type", "x-b"][i].to_owned()).collect();
-            ((*rng.pick(&pats)).to_owned(), rng.chance(1, 6), origins, methods, headers, *rng.pick(&[60u64, 3600, 1, 0, 16_777_217, 34_560_001, 63_072_001, 4_294_967_297, 9_007_199_254_740_993, 18_446_744_073_709_551_615]))
+            ((*rng.pick(&pats)).to_owned(), rng.chance(1, 6), origins, methods, headers, (*rng.pick(&["60", "3600", "1", "0", "16777217", "34560001", "63072001", "4294967297", "9007199254740993", "18446744073709551615", "1.500", "0.001", "59.999", "34560000.250", "0.000"])).to_owned())
         })
         .collect()
 }
@@ -69,7 +69,7 @@ impl Group for Decisions {
         let n = if ctx.mode == Mode::Quick { 30 } else { 800 };
         // an exact rule and a wildcard rule one character longer, with different origin lists, both insertion orders
         let fixed = |pairs: &[(&str, &str)], path_idx: usize| -> String {
-            let rules: Vec<RuleSpec> = pairs.iter().map(|(pat, origin)| ((*pat).to_owned(), false, vec![(*origin).to_owned()], Some(vec!["GET".to_owned(), "PUT".to_owned()]), vec!["x-a".to_owned()], 60u64)).collect();
+            let rules: Vec<RuleSpec> = pairs.iter().map(|(pat, origin)| ((*pat).to_owned(), false, vec![(*origin).to_owned()], Some(vec!["GET".to_owned(), "PUT".to_owned()]), vec!["x-a".to_owned()], "60".to_owned())).collect();
             let rules_s = list(rules.iter().map(|r| format!("{}|{}", hex(r.0.as_bytes()), spec_str(r).replace('/', "!"))));
             let reqs = list(["https://other.test", "https://third.test", "http://site.test"].iter().flat_map(|o| ["GET", "PUT", "OPTIONS+"].iter().map(move |m| format!("{m}@{path_idx}@{}", hex(o.as_bytes())))));
             format!("c13.respond 0 {rules_s} {reqs}")
@@ -110,7 +110,12 @@ impl Group for Decisions {
         let mut cors = Cors::empty();
         for (pat, spec) in &rules {
             let f: Vec<&str> = spec.split('/').collect();
-            let mut al = CorsAllowList::new(std::time::Duration::from_secs(f[4].parse().unwrap()));
+            // `<seconds>` or `<seconds>.<milliseconds>`
+            let dur = match f[4].split_once('.') {
+                Some((sec, ms)) => std::time::Duration::new(sec.parse().unwrap(), ms.parse::<u32>().unwrap() * 1_000_000),
+                None => std::time::Duration::from_secs(f[4].parse().unwrap()),
+            };
+            let mut al = CorsAllowList::new(dur);
             if f[0] == "1" { al = al.allow_all_origins(); }
             if f[1] != "-" {
                 for o in f[1].split(';') {
